@@ -614,3 +614,8 @@ class SInt:
 
     def __repr__(self):
         return f"<SInt {self.e}>"
+
+
+for _cls in (SBool, SReal, SInt):
+    _cls.__deepcopy__ = lambda self, memo: self
+    _cls.__copy__ = lambda self: self
